@@ -34,6 +34,12 @@ func (g *Gen) inferMods(fn *ssa.Function, stack map[*ssa.Function]bool) map[stri
 		for _, in := range b.Instrs {
 			switch v := in.(type) {
 			case *ssa.Store:
+				if isFreshValue(addrRoot(v.Addr), 0) {
+					// a write into an object this very call allocated (the argument array of a
+					// variadic logging call, a struct under construction): no object that
+					// existed before the call changes, which is all a frame promises
+					continue
+				}
 				h := g.heapOfAddr(v.Addr)
 				if h == "*" {
 					g.prog.modWhy["store in "+fn.String()+" through "+v.Addr.String()] = true
@@ -174,6 +180,20 @@ func (g *Gen) callMods(c *ssa.CallCommon, stack map[*ssa.Function]bool) map[stri
 		return out
 	}
 	return g.inferMods(fn, stack)
+}
+
+// addrRoot: the value an address expression is computed from (through field and element selection).
+func addrRoot(a ssa.Value) ssa.Value {
+	for {
+		switch v := a.(type) {
+		case *ssa.FieldAddr:
+			a = v.X
+		case *ssa.IndexAddr:
+			a = v.X
+		default:
+			return a
+		}
+	}
 }
 
 // heapOfAddr names the heap component an address expression points into ("" for locals).
